@@ -14,7 +14,7 @@ CLAIMED = {
              "kind and order, descriptions, log status, every dynamic and steady equation on random data against the expanded trees); all "
              "renderings of one model must yield the same model.",
         note="Trusted: TLC, the harness' tree evaluator. Bounds: 4 structured models, 124k renderings (quick: every 40th choice vector, all "
-             "alternatives covered). Macro arguments with more than one level of parentheses, Jinja, autoswaps, pre/post-processors not covered.",
+             "alternatives covered). Macro arguments with more than one level of parentheses, Jinja, autoswaps, pre/post-processors not covered. One known finding (a pseudofunction nested in another is not expanded).",
         design="5/C04", technique="TLA+ generative spec (ModelLang) checked by TLC; every TLC-rendered source replayed into irispie's parser"),
     "C02": dict(
         text="Aldi.tla defines derivative trees by the textbook rules (incl. two user context functions known by their definition) and, independently, "
@@ -22,7 +22,8 @@ CLAIMED = {
              "occurrence. Every tree becomes an equation of a model (source text from the spec) and is observed at all three places the property names: "
              "systemize() (A/B cells through the implementation's own token labels), the stacked-time evaluator's eval_func/eval_jacob over three "
              "periods with different data in every column (whole rows compared, so placement is decided too), and the flat and nonflat steady "
-             "evaluators' eval_jacob (levels and changes, time 0 and time k blocks, chain rule for the log-variable), and - the same tree one period "
+             "evaluators' eval_jacob (levels and changes, time 0 and time k blocks, chain rule for the log-variable), in systemize() of the SECOND variant of a "
+             "two-variant model with its own steady values, and - the same tree one period "
              "earlier as a measurement equation - in the F and G blocks of the measurement system; a construct is either differentiated to the spec's "
              "value or rejected. The stacked-time Jacobian WITH the first-order terminal condition is decided on the linear library (leads, second lead, "
              "second lag): one full Newton step from an arbitrary starting point must land on the spec's exact path.",
@@ -37,7 +38,7 @@ CLAIMED = {
              "checks non-negativity and the data-reproduction/equation identities on them. kalman_filter(return_info=True) is compared group by "
              "group, period by period, with these moments, and the likelihood, its contributions (zero without observations) and var_scale with "
              "the exact prediction-error decomposition, in level and deviation mode; with rescale_variance the likelihood concentrated at the maximum-likelihood "
-             "scale and the rescaled smoothed moments. For unit-root models (no exact moments) the recursion clauses are evaluated on the output: prediction "
+             "scale and the rescaled smoothed moments, also on a two-variant model whose variants are rescaled separately. For unit-root models (no exact moments) the recursion clauses are evaluated on the output: prediction "
              "step, update without observation, last period, predicted measurement.",
         note="Trusted: TLC, numpy. Bounds: 4 stationary library models (1-2 states, 1-2 observables, lagged state in the measurement equation), 3 periods, "
              "3-4 missing-data masks, 2x2 variance settings. Unit-root (diffuse) initialisation is not covered by exact moments.",
@@ -56,7 +57,8 @@ CLAIMED = {
         text="GaussSS.tla obtains the stationary covariance of each library model as the exact solution of its Lyapunov equation (rational "
              "Gauss-Jordan), builds C(k) = T^k Omega and the measurement block (lagged states, shared measurement shocks), and marks variables "
              "loaded on a unit root as NaN; TLC checks the Lyapunov identity and the s^2 scaling law on every scenario. get_acov, get_acorr, "
-             "get_acov_dimension_names and rescale_stds are compared entry by entry through the reported names.",
+             "get_acov_dimension_names and rescale_stds are compared entry by entry through the reported names, also with the scenarios of one model "
+             "as the variants of ONE multi-variant model (every variant rescaled).",
         note="Trusted: TLC, scipy Lyapunov solver/numpy. Bounds: library models L1, L2, L3, L9 and the unit-root model L5, orders 0..2, 4 std settings; "
              "the scale law is additionally exercised at scales 1e-3 and 1e-7 against the exact values.",
         design="5/C15", technique="TLA+ spec (GaussSS over RatLin/ModelLib) model-checked by TLC in exact rational arithmetic; every TLC-computed scenario replayed into irispie"),
@@ -64,22 +66,24 @@ CLAIMED = {
         text="ModelLib.tla holds small linear RE models (structural equations, measurement block) with a reduced-form certificate that is not "
              "trusted: LinearRE.tla simulates period by period and TLC checks in exact rational arithmetic, on every behaviour, that every "
              "structural equation has zero residual with leads read from the model-consistent continuation (the property itself), that the steady "
-             "state is the fixed point, and that level = steady + deviation; root certificates are checked against the characteristic polynomials. "
-             "The model source emitted by the spec is parsed, solved and simulated by irispie; whole paths and root counts are compared; two library "
+             "state - a fixed point, or a path for the linearised balanced-growth model - is reproduced by the reduced form, and that level = steady + deviation; root certificates are checked against the characteristic polynomials. "
+             "The model source emitted by the spec is parsed, solved and simulated by irispie (a second time with force_split_frames=True); whole paths and root counts are compared; two library "
              "models of the same shape are also run as the two parameter variants of ONE parametric linear model (variant k must follow its own spec path).",
         note="Trusted: TLC, scipy QZ/numpy primitives. Bounds: the library (rational roots, <= 2 states, leads and lags up to 2, log-variables, measurement "
-             "with lagged states), 4 periods, shocks in {-1,1,2} (thorough: 5 initial windows x 8 x 8 shock profiles). Complex roots, larger models and arbitrary parameters are out of bound.",
+             "with lagged states, a unit root with drift), 4 periods, shocks in {-1,1,2} (thorough: 5 initial windows x 8 x 8 shock profiles). Complex roots, larger models and arbitrary parameters are out of bound.",
         design="5/C01", technique="TLA+ spec (ModelLib, LinearRE) model-checked by TLC in exact rational arithmetic; every TLC-generated behaviour replayed into irispie"),
     "C05": dict(
         text="SteadyMC.tla holds a library of models with their exact steady solutions (levels and changes) as certificates that are not trusted: TLC "
              "checks in exact rational arithmetic that every steady equation is zero on the path level + change*k (level*change^k for log-variables) "
              "at k = 0..3 (Inv_SteadyEqHold) and that quantities fixed or swapped by a steady plan keep their values (Inv_PlanRespected). The source "
-             "emitted by the spec is solved by solve_steady in every configuration (split_into_blocks default/True/False, one and two variants); "
+             "emitted by the spec is solved by solve_steady in every configuration (split_into_blocks default/True/False, one and two variants, the default and the "
+             "scipy_root solver, further starting values where the solution is unique); "
              "levels, changes and endogenized parameters are compared with the certificate and every steady equation is re-evaluated on the stored "
              "path at several dates with the harness' own tree evaluator.",
-        note="Trusted: TLC, the harness' tree evaluator. Bounds: 8 library instances (flat nonlinear two-block; balanced growth with log-variables "
+        note="Trusted: TLC, the harness' tree evaluator. Bounds: 10 library instances (flat nonlinear two-block; balanced growth with log-variables "
              "and fix_level; linear growth; linear forward-looking; log-linear with lag/lead 2 under linear=True; exogenize-variable/endogenize-parameter "
-             "plan; flat mode with an exogenous variable carrying a stale change; linear growth with a unit root, drift and measurement equations), flat flag "
+             "plan; flat mode with an exogenous variable carrying a stale change; linear growth with a unit root, drift and measurement equations; a simultaneous core followed by a recursive tail two levels deep; "
+             "a cubic whose sum of squares has a local minimum away from the only real root), flat flag "
              "given at creation or at solve time. The statement is conditional on solve_steady completing; Newton convergence is not decided. One known finding (linear models ignore "
              "steady plans).",
         design="5/C05", technique="TLA+ spec (SteadyMC) model-checked by TLC in exact rational arithmetic; every TLC-verified instance replayed into irispie's solve_steady"),
@@ -129,10 +133,10 @@ CLAIMED = {
         text="ModelObjects.tla keeps, per handle, the sequence of variant records [parameters, steady-for, solved-for] and the tolerance setting; "
              "assign/steady/solve/alter_num_variants/override_tolerance/copy/pickle/dill/save-load are actions; independence (an action changes only its own handle) and duplicate "
              "equivalence are action properties checked by TLC on every generated step. Simulated behaviours are replayed on a Simultaneous "
-             "growth model with log-variables and on a Sequential model; after every step every variant of every handle is compared with a "
+             "growth model with log-variables, on a Sequential model (with reorder_equations as a further action) and on a RedVAR (estimate as the solve step); after every step every variant of every handle is compared with a "
              "fresh single-variant reference resolved from the record (steady levels/changes, solution matrices, simulations).",
-        note="Trusted: TLC (simulation mode: sampled behaviours). Bounds: 3 handles, <= 3 variants, 2 parameters x 3 values, depth 14. RedVAR is "
-             "not driven through the machine. Two known findings (portable round trip; standard pickle of Sequential).",
+        note="Trusted: TLC (simulation mode: sampled behaviours). Bounds: 3 handles, <= 3 variants, 2 parameters x 3 values, depth 14. RedVAR.simulate is "
+             "not part of the machine. Two known findings (portable round trip; standard pickle of Sequential).",
         design="5/C20", technique="TLA+ spec (ModelObjects) with action properties checked by TLC on simulated behaviours; behaviours replayed into irispie"),
     "C19": dict(
         text="Databox.tla models databoxes over a heap of item objects (deep copies allocate, shallow copies share, databox-level overlay/"
@@ -194,10 +198,12 @@ CLAIMED = {
         text="TLC checks the order/arithmetic/tiling/accessor/keyword-shift laws on every enumerated period (Calendar.tla) and the "
              "enumeration/reverse/shift/resolve laws on every span state and on all mutation histories inside a window (Spans*.tla); "
              "every computed scenario, every (span state, operation) transition and thousands of simulated mutation histories are "
-             "replayed through irispie and compared observation by observation. Exhaustive inside the bounds, nothing beyond them.",
+             "replayed through irispie and compared observation by observation. In the other direction a seeded driver applies random span operations "
+             "(six frequencies, wide windows, steps, contextual ends) to real Span objects, logs the observed span after every step, and TLC validates each recorded "
+             "history against the span actions (TraceSpans.tla); a corrupted history must be rejected at the corrupted line. Exhaustive inside the bounds, nothing beyond them.",
         note="Trusted: TLC, the TLA+ calendar definitions (leap rule, month lengths), Python's date.toordinal as the numbering of days; "
              "bounds: sample years incl. 1900/2000/2100 and calendar edges, 17 offsets, span serial window, steps +-1..3.",
-        design="5/C09", technique="TLA+ spec (Calendar, Spans) model-checked by TLC; TLC-generated scenarios and behaviours replayed into irispie"),
+        design="5/C09", technique="TLA+ spec (Calendar, Spans) model-checked by TLC; TLC-generated scenarios and behaviours replayed into irispie; histories recorded from irispie validated by TLC against the trace spec"),
     "C11": dict(
         text="TLC checks round-trip, containment, monotonicity and coarse-fine-coarse laws plus injectivity of the text forms on the "
              "calendar specification; every enumerated period is replayed through all irispie conversions (SDMX incl. auto-detection, "
